@@ -114,6 +114,15 @@ def generate(ctx, rng):
             k = rng.randint(3, max(3, n - 1))
             cuts = sorted(rng.sample(range(1, n), min(k, n - 1)))
             yield ("rnd", s["sid"], j), {"kind": "cuts", "stream": s, "cuts": cuts}
+    # several streams in a row through ONE protocol instance (state carried over between streams)
+    for j in range(250 if quick else 8000):
+        picks = [rng.choice(streams) for _ in range(rng.randint(2, 4))]
+        segs = []
+        for s in picks:
+            n = len(s["g"]) + sum(len(_mk_packet(p, i)[0]) for i, p in enumerate(s["p"]))
+            k = rng.choice([0, 1, 2, 5, n - 1])
+            segs.append(sorted(rng.sample(range(1, n), min(k, n - 1))) if n > 1 else [])
+        yield ("chain", j), {"kind": "chain", "streams": picks, "cuts": segs}
     # full-stack
     nfs = 260 if quick else 6000
     for j in range(nfs):
@@ -138,10 +147,11 @@ def _read_now(proto):
     raise RuntimeError("read(timeout=0) suspended")
 
 
-def _feed(ctx, case, stream, wire, ends, expected, cuts):
+def _feed(ctx, case, stream, wire, ends, expected, cuts, proto=None):
     """Feed one segmentation; return True if it held."""
-    proto = _LanProtocolV3()
-    proto._local_key = KEY
+    if proto is None:
+        proto = _LanProtocolV3()
+        proto._local_key = KEY
     delivered = []
     bounds = [0] + list(cuts) + [len(wire)]
     for a, b in zip(bounds, bounds[1:]):
@@ -185,6 +195,16 @@ def run_case(ctx, case):
     kind = case["kind"]
     if kind == "fullstack":
         return _fullstack(ctx, case)
+    if kind == "chain":
+        proto = _LanProtocolV3()
+        proto._local_key = KEY
+        for idx, (stream, cuts) in enumerate(zip(case["streams"], case["cuts"])):
+            wire, ends, expected = _prep(stream)
+            ok = _feed(ctx, case, stream, wire, ends, expected, tuple(cuts), proto=proto)
+            ctx.count(("chain", stream["sid"], tuple(cuts), idx), kind="chained-stream")
+            if not ok:
+                break
+        return
     stream = case["stream"]
     wire, ends, expected = _prep(stream)
     n = len(wire)
